@@ -187,6 +187,11 @@ def param_bits(ctx, fid, param, depth=0):
 
 
 def run(ctx):
+    _run_main(ctx)
+    rule_r10(ctx)
+
+
+def _run_main(ctx):
     fx, cg = ctx.fx, ctx.cg
     arith.FX = fx
 
@@ -386,6 +391,37 @@ def run(ctx):
             else:
                 r7.ok('%s|%s' % (short, kind), loc=fn.loc(b), detail='index not container-derived (loop counter / position)')
 
+    # premise of the reviewed exception above: validate_section_entries bounds-checks *every* entry it is given:
+    # each iteration of its loop passes the comparison of the entry's end against the file length, and the
+    # out-of-bounds edge returns an error
+    from ..dep import deps as _deps
+    vse = fx.fns.get(BC + 'decode::validate_section_entries') if 'BC' in globals() else None
+    if vse is None:
+        cands = [k for k in fx.fns if k.endswith('bytecode::decode::validate_section_entries')]
+        vse = fx.fns.get(cands[0]) if cands else None
+    if vse is None:
+        r7.bad('anchor-missing|validate_section_entries', 'validate_section_entries not found (premise of the section-slice exception)')
+    else:
+        vf = F(vse)
+        r7.saw()
+        cmps = set()
+        for b in vf.g:
+            for st in vf.bbs[b]['s']:
+                if st[0] == 'A' and st[2][0] == 'bin' and st[2][1] in ('Gt', 'Ge', 'Lt', 'Le'):
+                    da, db_ = _deps(vf, st[2][2]), _deps(vf, st[2][3])
+                    # one side: the file length parameter; other side: depends on an entry's offset/length
+                    flen = (1 in da.args) != (1 in db_.args)
+                    ent = any(f.endswith('SectionEntry.length') for f in da.fields | db_.fields) and any(f.endswith('SectionEntry.offset') for f in da.fields | db_.fields)
+                    if flen and ent:
+                        cmps.add(b)
+        loops = [set(c) for c in vf.sccs() if len(c) > 1]
+        hs = {b for c in loops for b in c if re.search(r'::next$', vf.call_name(b) or '')}
+        skipping = [c for c in vf.sccs(removed_nodes=cmps) if len(c) > 1 and set(c) & hs]
+        if cmps and hs and not skipping:
+            r7.ok('validate_section_entries|every-entry-bounds-checked', loc=vf.loc(min(cmps)))
+        else:
+            r7.bad('validate_section_entries|every-entry-bounds-checked', 'validate_section_entries can accept a section entry without comparing offset + length against the file length (an iteration skips the check): decode() then slices bytes[start..end] with container-chosen bounds and panics', loc=vf.loc(min(hs)) if hs else vf.loc(0))
+
     # ------------------------------------------------------------------ R8
     r8 = ctx.rule('C11.R8', 'the reader primitive bounds-checks before slicing; every other read goes through it', floor=7)
     rbid = [k for k in fx.fns if re.search(r'bytecode::reader::BytecodeReader.*::read_bytes$', k)]
@@ -495,3 +531,50 @@ def rule_r9(ctx):
             else:
                 r9.bad('rollback|%s' % short, 'the code buffer is rolled back after nested statements were emitted but their debug-map entries are kept: they point past the end of the code and the emitted container fails validation (or carries a wrong debug map)',
                        loc=fn.loc(b), witness={'path_lines': fn.path_lines(path)[-8:] if path else None})
+
+
+def rule_r10(ctx):
+    """Derived tables are computed after the last mutation of their source: in BytecodeEncoder::build the type offset
+    table is computed from `self.types` only when nothing that can still register a type runs afterwards."""
+    from ..cg import field_writes
+    fx, cg = ctx.fx, ctx.cg
+    r10 = ctx.rule('C11.R10', 'the compiled module is self-consistent: the type-offset table is computed after the last step that can register a type', floor=1)
+    bid = [k for k in fx.fns if re.search(r'bytecode::encoder::(<impl .*)?BytecodeEncoder(::<.*>|<.*>>)::build$', k)]
+    if not bid:
+        r10.bad('anchor-missing|build', 'BytecodeEncoder::build not found')
+        return
+    fn = F(fx.fns[bid[0]])
+    r10.saw(len(fn.g))
+    comp = fn.blocks_calling(lambda n: n.endswith('compute_type_offsets_for_entries'))
+    if not comp:
+        r10.bad('type-offsets-last', 'build() no longer computes the type offsets with compute_type_offsets_for_entries (shape not recognised)', loc=fn.loc(0))
+        return
+    is_types = lambda f: f.endswith('BytecodeEncoder.types')
+    memo = {}
+
+    def mutates_types(fid):
+        if fid in memo:
+            return memo[fid]
+        memo[fid] = False
+        out = False
+        for n in cg.reach([fid]):
+            rec = fx.fns.get(n)
+            if rec is None:
+                continue
+            w, mb = field_writes(rec)
+            if any(is_types(f) for ch in (w | mb) for f in ch):
+                out = True
+                break
+        memo[fid] = out
+        return out
+    late = []
+    after = set()
+    for c in comp:
+        after |= fn.reach_after(c)
+    for b, nm, t in fn.calls(lambda n: n in fx.fns):
+        if b in after and b not in comp and mutates_types(nm):
+            late.append((b, nm))
+    if late:
+        r10.bad('type-offsets-last', 'build() computes the type-offset table before %s, which can still register a type: the compiled module then carries an offset table that does not match its type entries (decode(encode(m)) differs from m)' % late[0][1].split('::')[-1], loc=fn.loc(late[0][0]))
+    else:
+        r10.ok('type-offsets-last', loc=fn.loc(comp[0]))
